@@ -24,6 +24,8 @@ canonicalised arguments; the physical constants R, F (kJ/V/eq and C/mol), eps0, 
                recovered from the readers), may skip the potential masters but not surface-site, exchange or aqueous masters
   C20.zerosites  the same loop, evaluated over {exchange, surface-site} x {total > 0, total == 0} with the unknown present (setup_* creates the
                unknown of a site-less exchanger / surface): unknown->moles is assigned in every case (shared with C03 as C03.zerosites)
+  C20.perdl    explicit diffuse layer: in molalities() the record of charge structure j (moles in its diffuse layer and the derivatives) is
+               computed from structure j's own data; the accumulator over all structures is used only for the species' mass balance
   C20.compunk  CD-MUSIC plane-0 charge = sum over the site types of a charge structure of moles * z(master species): the list the
                residual and the print-out sum over (unknown::comp_unknowns) has one writer, the CD_MUSIC branch of setup_surface; the
                registration lies on every path through that branch (also for a site type that finds the charge unknowns created)
@@ -166,6 +168,7 @@ def run(P, R, tier):
     deltaz_rule(P, R)
     sites_rule(P, R)
     zerosites_rule(P, R)
+    perdl_rule(P, R)
     compunk_rule(P, R)
     R.rule("C20.psi", "every potential conversion is psi = 2 la ln10 R T/F (DDL, CCM) or psi = -la ln10 R T/F (CD-MUSIC planes), matching the selected model", minimum=12)
     R.rule("C20.sigma", "every charge-density conversion is sigma = q F/(A g) or q = sigma A g/F", minimum=15)
@@ -440,6 +443,45 @@ def compunk_rule(P, R):
                     R.ok(RULE, "%s@%d" % (g["q"].split("::")[-1], x[1]), "loop over comp_unknowns")
     if n < 1:
         R.anchor_missing(RULE, "no reader loop over unknown::comp_unknowns found (residuals, print)")
+
+
+def perdl_rule(P, R):
+    """"with an explicit diffuse layer its ion excess balances the surface charge": molalities() computes for every aqueous species and
+    every charge structure j the moles held in the diffuse layer of j (cxxSpeciesDL::g_moles and its derivatives), and - separately - the
+    sum over all structures (total_g) for the species' mass balance.  The per-structure quantities feed the charge-balance equation of
+    structure j, so the arguments of the setters called on the per-structure record depend only on structure j's own data; using the
+    cross-structure accumulator there gives the 2nd, 3rd ... structure the diffuse-layer content of the preceding ones as well."""
+    RULE = "C20.perdl"
+    R.rule(RULE, "molalities(): the per-structure diffuse-layer record (g_moles, dg_g_moles, dx_moles, dh2o_moles, drelated_moles) is computed from that structure's own data, not from the cross-structure accumulator", minimum=4)
+    f = P.one("Phreeqc::molalities")
+    where = dict(file=f["file"], function=f["q"])
+    loop = None
+    for x in T.walk(f["body"]):
+        if x[0] == "For" and any(T.callee_name(c) == "Get_surface_charges" for c in T.calls(x[3])) and any(T.callee_name(c) == "Set_g_moles" for c in T.calls(x[5])):
+            loop = x
+    if loop is None:
+        R.anchor_missing(RULE, "molalities(): loop over the charge structures that fills the diffuse-layer records not found")
+        return
+    acc = set()
+    for y in T.walk(loop[5]):
+        if y[0] == "Bin" and y[2] in ("+=", "-=") and T.strip_casts(y[3])[0] == "Ref" and T.strip_casts(y[3])[2] == "local":
+            acc.add(T.strip_casts(y[3])[3])
+    n = 0
+    for c in T.calls(loop[5]):
+        nm = T.callee_name(c)
+        if not nm.startswith("Set_") or not T.is_node(c[3]) or "dl_ref" not in T.text(c[3]):
+            continue
+        n += 1
+        used = sorted(set(y[3] for a in c[4] for y in T.walk(a) if y[0] == "Ref" and y[2] == "local" and y[3] in acc))
+        inst = "%s@%d" % (nm, c[1])
+        if used:
+            R.violation(RULE, inst, "the per-structure value %s is computed from `%s`, which is accumulated over ALL charge structures of the surface: the second and later structures also "
+                        "carry the diffuse-layer content of the preceding ones, so their charge-balance equation (and the Jacobian) describes another surface"
+                        % (nm[4:], ", ".join(used)), line=c[1], **where)
+        else:
+            R.ok(RULE, inst, "own data of the structure only")
+    if n < 4:
+        R.anchor_missing(RULE, "only %d setters on the per-structure diffuse-layer record found" % n)
 
 
 def zerosites_rule(P, R, RULE="C20.zerosites"):
